@@ -95,6 +95,8 @@ pub const FIELD_OPTS: &[&str] = &[
 pub const FIELD_BAD: &[&str] = &[
     "foo", "rename", "rename = 5", "flatten = true", "skip = \"maybe\"", "\"lit\"", "with = \"fns::w\"", "default(x)", "flaten",
     "multiple = 1", "map = 5", "rename(x)", "5",
+    // option names that are paths: `::`-rooted and multi-segment spellings of real options
+    "::skip", "::map = \"fns::m\"", "::and_then = fns::a", "darling::rename = \"x\"", "::flatten", "a::multiple", "::default", "::with = fns::w",
 ];
 const CONTAINER_OPTS: &[&str] = &[
     "default", "default = \"fns::d\"", "rename_all = \"camelCase\"", "rename_all = \"snake_case\"", "map = \"fns::m\"", "and_then = \"fns::a\"",
@@ -106,9 +108,14 @@ const CONTAINER_BAD: &[&str] = &[
     "foo", "rename_all = \"Title Case\"", "rename_all", "default(x)", "supports(struct_struct_named)", "supports(struct_named::x)",
     "supports(strukt_named)", "supports(\"lit\")", "attributes(\"x\")", "attributes = 1", "forward_attrs = 1", "\"lit\"", "map", "bound = 5",
     "supports(enum_bogus)", "supports", "allow_unknown_fields = 2", "default = 5", "supports(named)", "supports(a::any)",
+    "::map = \"fns::m\"", "::and_then = fns::a", "darling::map = \"fns::m\"", "::default", "::rename_all = \"camelCase\"", "::attributes(a)",
+    "::supports(any)", "::from_word = fns::fw", "::allow_unknown_fields", "::bound = \"T: Clone\"", "::forward_attrs", "::from_ident",
+    // a bad shape word after / between good ones (order matters to a parser that stops early)
+    "supports(any, struct_nmaed)", "supports(struct_nmaed, any)", "supports(enum_unit, any, everything)", "supports(any, \"lit\")",
+    "supports(any, any::x)", "supports(struct_any, bogus, enum_any)",
 ];
 const VARIANT_OPTS: &[&str] = &["rename = \"v\"", "skip", "skip = false", "word", "word = true", "word = false"];
-const VARIANT_BAD: &[&str] = &["foo", "rename", "skip = 1", "\"lit\"", "default"];
+const VARIANT_BAD: &[&str] = &["foo", "rename", "skip = 1", "\"lit\"", "default", "::skip", "::word", "a::rename = \"v\"", "::rename = \"v\""];
 const MALFORMED_ATTRS: &[&str] = &[
     "#[darling]", "#[darling = \"x\"]", "#[darling(\"lit\")]", "#[darling(foo bar)]", "#[darling(,)]", "#[darling{skip}]", "#[darling[skip]]",
     "#[darling(skip,)]", "#[darling()]", "#[darling(=)]", "#[darling(a = )]", "#[darling(::skip)]", "#[darling(skip = true = false)]", "#[darling(5)]",
@@ -225,6 +232,26 @@ pub fn run_c10(seed: u64, n: usize, out: &mut Out) {
         "#[darling(attributes(a), supports(struct_struct_named))] struct R { a: u8 }",
         "#[darling(attributes(a), supports(struct_named::x))] struct R { a: u8 }",
         "#[darling(attributes(a), supports(enum_enum_unit, any))] struct R { a: u8 }",
+        "#[darling(attributes(a), supports(any, struct_nmaed))] struct R { a: u8 }",
+        "#[darling(attributes(a), supports(struct_nmaed, any))] struct R { a: u8 }",
+        "#[darling(attributes(a), supports(enum_unit, any, everything))] struct R { a: u8 }",
+        "#[darling(attributes(a), supports(any, \"lit\"))] struct R { a: u8 }",
+        "#[darling(attributes(a), supports(unit, bogus, named))] struct R { a: u8 }",
+        "#[darling(attributes(a), supports(any, unit::x))] struct R { a: u8 }",
+        "#[darling(::map = \"fns::m\")] struct R { a: u8 }",
+        "#[darling(::and_then = fns::a)] enum E { A, B }",
+        "struct R { #[darling(::map = \"fns::m\")] a: u8 }",
+        "struct R { #[darling(::skip)] a: u8 }",
+        "enum E { #[darling(::skip)] A, B }",
+        "enum E { A, #[darling(skip = false)] Pair(u8, u8) }",
+        "enum E { A, #[darling(skip)] Pair(u8, u8) }",
+        "enum E { A, #[darling(skip = true)] Zero() }",
+        "struct R { #[darling(skip, flatten)] a: A, b: u8 }",
+        "struct R { #[darling(skip = true)] #[darling(flatten)] a: A, b: u8 }",
+        "struct R { #[darling(flatten, skip = false)] a: A, b: u8 }",
+        "enum E { #[darling(word)] B {} }",
+        "enum E { #[darling(word)] A() }",
+        "enum E { #[darling(word)] A, B {} , C() }",
         "#[darling(attributes(a))] struct R { #[darling(with = fns::w)] attrs: Vec<syn::Attribute>, #[darling(with = \"fns::w2\")] data: X }",
         "#[darling(attributes(a), forward_attrs)] struct R { #[darling(wiht = fns::w)] attrs: Vec<syn::Attribute> }",
         "#[darling(attributes(a), forward_attrs)] struct R { #[darling(with = fns::w, with = fns::w)] attrs: Vec<syn::Attribute> }",
